@@ -1426,6 +1426,100 @@ fn run_mig_reader_case(case: &C02Case) -> CaseResult {
         .count("oracle-calls-checked", calls_checked))
 }
 
+// ------------------------------------------------------------------------------------------------
+// take_transaction_for_broadcast on a really proved migration transaction (one fixture per process)
+// ------------------------------------------------------------------------------------------------
+
+const REAL_PROOF_SUB: &str = "take-for-broadcast-real-proof";
+
+/// Enumerated: index 0 = reference run, commit count, crash copy, vetoed commit; index i >= 1 = the i-th fault position
+/// (with a second-connection snapshot before it). Every evaluation works on its own copy of the fixture database.
+fn run_real_proof_subcheck(ctx: &Arc<Ctx>) {
+    use migration::real_proof;
+    let kind = "op:mig.take_transaction_for_broadcast(proved)";
+    let fx = match real_proof::fixture() {
+        Ok(f) => f,
+        Err(e) => {
+            // not a C02 question: the prove pipeline could not produce the state. Reported as a generator-health miss.
+            println!("NOTE: the real-proof fixture could not be built: {e}");
+            ctx.run_enum(REAL_PROOF_SUB, 1, true, |_| Ok(Obs::trivial().label("fixture-unavailable")), |_| "fixture".to_string());
+            ctx.require_min_count(REAL_PROOF_SUB, "positions-injected", 1);
+            return;
+        }
+    };
+    let run = |conn: &mut Connection| real_proof::take(conn, fx);
+    let desc = format!("take_transaction_for_broadcast(state, {:?}) on a migration whose preparation {:?} is really proved", fx.proved, fx.proved);
+    let dir = fx.path.parent().unwrap().to_path_buf();
+    let stem = fx.path.file_name().unwrap().to_string_lossy().to_string();
+    let files = |i: u64| {
+        let (dir, stem) = (dir.clone(), stem.clone());
+        move |tag: &str| dir.join(format!("{stem}.{i}.{tag}"))
+    };
+    // the reference information every position needs (and the number of positions) is computed once, up front; index 0
+    // repeats it so that a failure in it is reported through the ordinary channel
+    let pre = {
+        let p = files(u64::MAX);
+        let _cleanup = TempFiles(vec![p("ref"), p("crash"), p("veto")]);
+        reference_checks(&fx.path, &p, &OpUnderTest { kind, desc: desc.clone(), run: &run })
+    };
+    let dense = ctx.tier == vcore::Tier::Thorough;
+    let pos: Vec<u64> = match &pre {
+        Ok(info) => {
+            let all = positions(info.s, &[0x1357_9bdf, 0x2468_ace0, 0x0f0f_0f0f, 0xf0f0_f0f0, 0x7fff_ffff, 0x8000_0001], dense);
+            if dense {
+                all
+            } else {
+                // quick: every third of the sampled positions (each evaluation re-verifies a 16-action proof twice)
+                all.into_iter().step_by(3).collect()
+            }
+        }
+        Err(_) => vec![],
+    };
+    let n = 1 + pos.len() as u64;
+    ctx.run_enum(
+        REAL_PROOF_SUB,
+        n,
+        true,
+        |i| {
+            let p = files(i);
+            let _cleanup = TempFiles(vec![p("ref"), p("flt"), p("crash"), p("veto")]);
+            let op = OpUnderTest { kind, desc: desc.clone(), run: &run };
+            if i == 0 {
+                let info = reference_checks(&fx.path, &p, &op)?;
+                vensure!(info.ref_res.is_ok(), "harness-real-proof-take-fails", "take_transaction_for_broadcast on the fixture failed: {:?}", info.ref_res);
+                let wallet_tables_changed = info.d0.iter().any(|(t, rows)| !migration::MIGRATION_TABLES.contains(&t.as_str()) && info.dr.get(t) != Some(rows));
+                let mig_tables_changed = info.d0.iter().any(|(t, rows)| migration::MIGRATION_TABLES.contains(&t.as_str()) && info.dr.get(t) != Some(rows));
+                return Ok(Obs::new(info.changed >= 2)
+                    .label(kind)
+                    .label_if(wallet_tables_changed, "take-writes-wallet-tables")
+                    .label_if(mig_tables_changed, "take-writes-migration-tables")
+                    .count("vm-steps", info.s)
+                    .count("commit-vetoes", info.veto_checked)
+                    .count("crash-copies-recovered", info.crash_checked)
+                    .count("rows-changed-by-reference", info.changed as u64));
+            }
+            let info = pre.as_ref().map_err(|f| Fail::new(f.signature.clone(), f.msg.clone()))?;
+            let mut st = PosStats::default();
+            fault_position(&fx.path, &p, &op, info, pos[i as usize - 1], true, &mut st)?;
+            Ok(Obs::new(st.mid_write > 0)
+                .label_if(st.mid_write > 0, "fault-between-writes")
+                .label_if(st.swallowed > 0, "interrupt-swallowed-ok")
+                .count("positions-injected", st.injected)
+                .count("faulted-runs-failed", st.errs)
+                .count("faults-after-first-write", st.mid_write)
+                .count("snapshots-compared", st.snapshots)
+                .count("snapshots-after-commit", st.snapshots_after_commit)
+                .count("snapshots-busy", st.snapshot_busy))
+        },
+        |i| if i == 0 { "reference run, crash copy, vetoed commit".to_string() } else { format!("fault position #{i}") },
+    );
+    ctx.extra("real_proof_fixture", serde_json::json!({ "scenario": "single minimum-denomination note; first preparation proved", "build_seconds": fx.build_seconds }));
+    ctx.require_min_count(REAL_PROOF_SUB, "take-writes-wallet-tables", 1);
+    ctx.require_min_count(REAL_PROOF_SUB, "take-writes-migration-tables", 1);
+    ctx.require_min_count(REAL_PROOF_SUB, "faults-after-first-write", ctx.tier.pick(3, 20));
+    real_proof::cleanup();
+}
+
 fn main() {
     chainsim::init_sqlite();
     let ctx = Ctx::from_args("C02", "fault_enumeration");
@@ -1460,6 +1554,8 @@ fn main() {
     if let Some(o) = &only {
         println!("NOTE: VERIF_C02_ONLY is set: only the sub-checks {o:?} run; this is NOT a full C02 run");
     }
+    // the real-proof fixture (one 16-action Orchard proof) is built in the background while the other sub-checks run
+    let warm = (want(REAL_PROOF_SUB) && (!ctx.is_replay() || ctx.wants(REAL_PROOF_SUB))).then(|| std::thread::spawn(|| migration::real_proof::fixture().is_ok()));
     if want("fault-enumeration") {
         let c2 = ctx.clone();
         ctx.run_prop_with("fault-enumeration", arb_c02_case, tier.pick(128, 3_000), 20, move |c| run_case(&c2, c));
@@ -1503,7 +1599,13 @@ fn main() {
         ctx.require_min_count("reader-snapshot-migration", "write-changes:check_step_satisfiability", tier.pick(12, 120));
         ctx.require_min_count("reader-snapshot-migration", "write-changes:migration-state-reads", tier.pick(4, 40));
     }
-    // evidence: totals across op kinds
+    if want(REAL_PROOF_SUB) && ctx.wants(REAL_PROOF_SUB) && !(ctx.violated() && !ctx.is_replay()) {
+        run_real_proof_subcheck(&ctx);
+    }
+    if let Some(t) = warm {
+        let _ = t.join();
+    }
+    migration::real_proof::cleanup();
     ctx.finish();
 }
 
